@@ -484,6 +484,11 @@ func (r *Rig) Step(id int) bool {
 						held = sl
 					}
 				}
+				if r.Multi && held >= 0 && r.excl[held] != ev.owner && ev.owner.next >= 1 && ev.owner.next <= len(ev.owner.Reqs) {
+					if k := ev.owner.Reqs[ev.owner.next-1].Kind; k != "get" && k != "gete" {
+						r.SplitKey = fmt.Sprintf("thread %d ran the backend requests of a %s on key %q while holding the key's lock only in shared (reader) mode", ev.owner.ID, k, ev.key)
+					}
+				}
 				if r.keySlot == nil {
 					r.keySlot = map[string]int{}
 				}
